@@ -266,6 +266,8 @@ def c05_rf12(run):
     run.min_instances('RF12', 25)
     rf_keys.rf12b(run)
     run.min_instances('RF12b', 100)
+    rf_alloc.rf3b(run, units=('mir',))
+    run.min_instances('RF3b', 100)
 
 
 def c05_rf10(run):
